@@ -5,18 +5,22 @@ CONSTANTS
   NChunks = 2
   AutoChoices = {{"P1"}}
   HwChoices = {{"P2"}}
+  NoDefChoices = {{"P1"}}
+  CfgVals = {"v2"}
   Faults = {"crash"}
   Corruptions = {"missing", "notjson", "notdict", "extra", "bad", "drop"}
   Dev = {}
-  Depth = 8
+  Depth = 12
   MaxChanges = 2
   MaxSaves = 0
   MaxFaults = 0
   MaxStarts = 2
   MaxCorrupt = 2
+  MaxOther = 0
   FirstCfgs = {0}
   StartCfgs = {0, 1}
-  CfgVals = {"v2"}
+  CfgKinds = {"value", "default"}
+  Vias = {"set"}
 CONSTRAINT Bound
 INVARIANT Emit1
 CHECK_DEADLOCK FALSE
